@@ -84,8 +84,8 @@ def configs(tier):
             for (kind, I0, R0) in ics:
                 if kind == 'sets' and R0 and not sir:
                     continue
-                if entry in NODE and kind != 'rho':
-                    continue
+                if entry in NODE and kind != 'rho' and not (kind == 'default' and 'pair_based' in entry):
+                    continue      # (the pair-based models document rho = 1/N as their default; the individual-based ones require rho or Y0)
                 if entry in NODE_PURE and kind in ('rho', 'default'):
                     continue
                 if entry in OTHER and kind not in ('rho', 'default'):
